@@ -613,6 +613,23 @@ def failed_dump(v, rng, geom, backends, scratch, hid):
                 except Exception as e:  # noqa: BLE001
                     out.append(f"EXC {type(e).__name__}")
             return out
+        # a linear index beyond the last element denotes NO element (row-major order of the external shape): has_index must not
+        # say True and get_from_index must not hand out a stored value for it
+        size = len(m.ext_indices)
+        for idx in (size, size + 1, 2 * size):
+            for what in ("has_index", "get_from_index"):
+                try:
+                    got = getattr(arr, what)(idx)
+                except Exception:  # noqa: BLE001  (refusing is fine)
+                    v.count("linear_indices_beyond_the_end_refused")
+                    continue
+                v.count("linear_indices_beyond_the_end_answered")
+                if what == "has_index" and bool(got):
+                    v.bad(f"has_index:true-beyond-the-end/{name}", f"has_index({idx}) is True for an array of {size} element(s)", backend=name,
+                          shape=list(S), internal_shape=list(I), shape_mask=list(mask), earlier_dumps=pre)
+                elif what == "get_from_index" and M.render(got) != M.MASKED and pre:
+                    v.bad(f"get_from_index:value-beyond-the-end/{name}", f"get_from_index({idx}) returned {short(M.render(got), 120)} for an array of "
+                          f"{size} element(s)", backend=name, shape=list(S), internal_shape=list(I), shape_mask=list(mask), earlier_dumps=pre)
         before = observe()
         bad_value = threading.Lock()
         if I:
